@@ -26,7 +26,7 @@ ASSUMPTIONS = [
     'integers beyond CPython\'s int/str conversion limit (4300 digits) are outside the claim: json refuses them and the build '
     'fails and is rolled back',
 ]
-WITNESSES = {'quick': ['served-from-cache', 'failure-marker-survived', 'created-dirs-survived', 'cache-object-compared', 'cache-write-failed', 'shrunk-build-committed'],
+WITNESSES = {'quick': ['served-from-cache', 'failure-marker-survived', 'created-dirs-survived', 'cache-object-compared', 'cache-write-failed', 'shrunk-build-committed', 'versions-dropped'],
              'thorough': ['served-from-cache']}
 
 # functions that are legitimately re-executed by an unchanged build: the one that failed (r.1) and the caller that caught a
@@ -288,6 +288,14 @@ def harness(eng, fam, P):
         eng.witness('served-from-cache')
         if 'exc:Boom' in repr(impl2[1]):
             eng.witness('failure-marker-survived')
+        if who == 'version':
+            # the next build is given no versions at all: what is stored is what that build was given (absent = None)
+            impl3, ref3 = d.build(prog, versions={}, behaviour=beh)
+            d.guard_same('no-versions')
+            c3 = cache_mod.Cache.read_immutable(w.cache)
+            eng.check('C16.func-versions-as-given', len(c3._func_versions) == 0, sig,
+                      info={'stored': repr(c3._func_versions)[:200], 'given': '{}'})
+            eng.witness('versions-dropped')
         # ---- clean on the state left by the cached build removes what the builds created
         d.clean()
         d.check_tree('C16.clean', sig)
